@@ -56,3 +56,14 @@ func (el *enumValueList) has(v Symbol) bool {
 	}
 	return false
 }
+
+func (el *enumValueList) dup() (d enumValueList) {
+	d.list = el.list
+	if el.dict != nil {
+		d.dict = make(map[string]*EnumValue, len(el.dict))
+		for k, v := range el.dict {
+			d.dict[k] = v
+		}
+	}
+	return
+}
